@@ -300,6 +300,31 @@ func genEntity(r *vh.Rand) *entityDecl {
 	return d
 }
 
+func squash(s string) string { return strings.ToLower(strings.ReplaceAll(s, "_", "")) }
+
+// genSecond draws a second entity for the same file whose generated names cannot collide
+// with the first one's.
+func genSecond(r *vh.Rand, first *entityDecl) *entityDecl {
+	for {
+		d := genEntity(r)
+		a, b := squash(first.Name), squash(d.Name)
+		if a == "" || b == "" || strings.HasPrefix(a, b) || strings.HasPrefix(b, a) {
+			continue
+		}
+		d.Pkg = first.Pkg
+		for i := range d.Commands {
+			if d.Commands[i].Name != nil {
+				n := "Two" + *d.Commands[i].Name
+				d.Commands[i].Name = &n
+			}
+			for k := range d.Commands[i].Methods {
+				d.Commands[i].Methods[k].Name += "B"
+			}
+		}
+		return d
+	}
+}
+
 // malformed stream: declarations entityNode.run rejects
 func genMalformed(r *vh.Rand) (*entityDecl, string) {
 	d := genEntity(r)
@@ -350,18 +375,18 @@ type compiled struct {
 	panicked any
 }
 
-func compileEntity(d *entityDecl) (out compiled) {
+func compileEntity(d *fileDecl) (out compiled) {
 	defer func() {
 		if r := recover(); r != nil {
 			out.panicked = r
 		}
 	}()
-	files, err := compile.Compile(context.Background(), map[string]string{d.filename(): d.j5s()}, d.Pkg)
+	files, err := compile.Compile(context.Background(), map[string]string{d.filename(): d.j5s()}, d.pkg())
 	if err != nil {
 		out.err = err
 		return
 	}
-	dd, err := dumpFiles(d.Pkg, files)
+	dd, err := dumpFiles(d.pkg(), files)
 	if err != nil {
 		out.err = fmt.Errorf("dump: %w", err)
 		return
@@ -376,7 +401,7 @@ const c17Shard = 40
 func runC17(cfg *vh.Config) error {
 	log.SetOutput(io.Discard) // the compiler logs every walker error
 	res := vh.NewResult("C17", cfg.Seed)
-	res.Rule = "entity declarations: name casings (fixed list incl. trailing capitals/acronyms/digits/underscores + generated identifiers), 1-4 keys (key-typed id62/uuid/plain with primary/tenant, or scalar) x shard flag x required, 0-4 data fields over 9 scalar types + keys, 1-4 statuses (+ the UNSPECIFIED-first and prefixed-name edge cases), foreign keys, optional fields, methods without response, 0-3 events with 0-3 fields, 0-2 command services (default/named, base path, 0-2 methods with path parameters), 0-2 summaries (default/named), optional query settings; malformed: unknown default status, duplicate summary, optional+required field, path parameter that is not a request field; plus the strcase stream; non-trivial = distinct declaration text"
+	res.Rule = "entity declarations: name casings (fixed list incl. trailing capitals/acronyms/digits/underscores + generated identifiers), 1-4 keys (key-typed id62/uuid/plain with primary/tenant, or scalar) x shard flag x required, 0-4 data fields over 9 scalar types + keys, 1-4 statuses (+ the UNSPECIFIED-first and prefixed-name edge cases), foreign keys, optional fields, methods without response, 0-3 events with 0-3 fields, 0-2 command services (default/named, base path, 0-2 methods with path parameters), 0-2 summaries (default/named), optional query settings; 20% of the files declare two entities; malformed: unknown default status, duplicate summary, optional+required field, path parameter that is not a request field; plus the strcase stream; non-trivial = distinct declaration text"
 	cf := &vh.CasesFile{
 		Header: "From Coq Require Import String List NArith.\nFrom J5V.lib Require Import Outcome.\nFrom J5V.model Require Import Entity EntityCorr.",
 		Type:   "c17case",
@@ -386,24 +411,30 @@ func runC17(cfg *vh.Config) error {
 	caseNo := 0
 	r := cfg.R
 
-	var decls []*entityDecl
+	var decls []*fileDecl
 	var kinds []string
 	// every fixed name once with a small fixed shape, then random declarations
 	for _, n := range entNames {
 		d := genEntity(r.Fork("fixed:" + n))
 		d.Name = n
-		decls = append(decls, d)
+		decls = append(decls, &fileDecl{Ents: []*entityDecl{d}})
 		kinds = append(kinds, "fixed-name")
 	}
 	nGen := cfg.Scale(160, 4000)
 	for i := 0; i < nGen; i++ {
-		decls = append(decls, genEntity(r))
-		kinds = append(kinds, "generated")
+		d := genEntity(r)
+		if r.Chance(20) {
+			decls = append(decls, &fileDecl{Ents: []*entityDecl{d, genSecond(r, d)}})
+			kinds = append(kinds, "two-entities")
+		} else {
+			decls = append(decls, &fileDecl{Ents: []*entityDecl{d}})
+			kinds = append(kinds, "generated")
+		}
 	}
 	nBad := cfg.Scale(24, 300)
 	for i := 0; i < nBad; i++ {
 		d, k := genMalformed(r)
-		decls = append(decls, d)
+		decls = append(decls, &fileDecl{Ents: []*entityDecl{d}})
 		kinds = append(kinds, k)
 	}
 
@@ -426,15 +457,15 @@ func runC17(cfg *vh.Config) error {
 			res.Count("compiled_ok")
 			if malformed {
 				res.Fail(vh.Failure{Case: caseNo, Stream: "entity", Sig: "C17 malformed entity (" + kinds[i] + ") accepted", Clause: "walker rejects unknown default status / duplicate summary", Input: in, Got: "compiled"})
-			} else {
-				oracleC17(res, caseNo, d, out.dump, in)
+			} else if len(d.Ents) == 1 {
+				oracleC17(res, caseNo, d.Ents[0], out.dump, in)
 			}
 		} else {
 			res.Count("compiled_err")
 			if !malformed {
 				// an admissible declaration must compile (closedness of the expansion)
 				sig := "C17 admissible entity fails to compile: " + errClass(out.err)
-				if strings.Contains(out.err.Error(), "not found") && endsCap(d.Name) {
+				if strings.Contains(out.err.Error(), "not found") && endsCap(d.Ents[0].Name) {
 					sig = "C17 entity name ending in a capital fails to compile: type <Name>State/Event/EventType not found (entity.go naming)"
 				}
 				res.Fail(vh.Failure{Case: caseNo, Stream: "entity", Sig: sig, Clause: "every internal reference of the expansion resolves", Input: in, Got: out.err.Error()})
@@ -444,7 +475,7 @@ func runC17(cfg *vh.Config) error {
 		var clines []line
 		cok := false
 		if ok {
-			ents, plain, cerr, cpan := clientEntities(d.Pkg, out.files)
+			ents, plain, cerr, cpan := clientEntities(d.pkg(), out.files)
 			switch {
 			case cpan != nil:
 				res.Fail(vh.Failure{Case: caseNo, Stream: "entity", Sig: "C17 client API derivation panics on a compiled entity", Clause: "the client groups the parts into one StateEntity", Input: in, Got: fmt.Sprint(cpan)})
@@ -455,9 +486,26 @@ func runC17(cfg *vh.Config) error {
 				}
 			default:
 				cok = true
-				clines = clientLines(ents)
+				// the client lists entities in map order: bring them into declaration order
+				var ordered []*client_j5pb.StateEntity
+				for _, decl := range d.Ents {
+					for _, e := range ents {
+						if e.Name == strcase.ToSnake(decl.Name) {
+							ordered = append(ordered, e)
+						}
+					}
+				}
+				if len(ordered) != len(ents) || len(ents) != len(d.Ents) {
+					res.Fail(vh.Failure{Case: caseNo, Stream: "entity", Sig: "C17 client API does not show one state entity per declared entity", Clause: "the client groups the parts into one StateEntity", Input: in, Got: fmt.Sprint(len(ents))})
+					ordered = ents
+				}
+				clines = clientLines(ordered)
 				if !malformed {
-					oracleClient(res, caseNo, d, ents, plain, in)
+					for k, decl := range d.Ents {
+						if k < len(ordered) {
+							oracleClient(res, caseNo, decl, ordered[k:k+1], plain, in)
+						}
+					}
 				}
 			}
 		}
@@ -476,7 +524,7 @@ func runC17(cfg *vh.Config) error {
 		}
 		res.Cases = append(res.Cases, vh.CaseRec{Case: caseNo, Stream: "entity", Input: in, Impl: impl})
 		if i%37 == 5 {
-			res.Sample(map[string]any{"stream": "entity", "name": d.Name, "ok": ok, "lines": len(lines)}, 6)
+			res.Sample(map[string]any{"stream": "entity", "name": d.Ents[0].Name, "entities": len(d.Ents), "ok": ok, "lines": len(lines)}, 6)
 		}
 		caseNo++
 	}
